@@ -328,7 +328,7 @@ def specs(tier):
             *templates.all_templates(3 if tier == "quick" else 5, kids="impl")]
     from . import c06_access, c06_dump
 
-    return [*code, PairTokens(), PairsTokens(), FlattenInner(), PairsFlatten(), *c06_dump.specs(tier), *c06_access.specs(tier)]
+    return [*code, PairTokens(), PairsTokens(), FlattenInner(), PairsFlatten(), *c06_dump.specs(tier), *c06_access.specs(tier), templates.StubsRepresentative()]
 
 
 concretise = concretise_ops(PROPERTY, default_modes=("interp", "interp+opt", "gen", "gen+opt"))
